@@ -94,7 +94,7 @@ ApproxZipfDistribution<IntType>::ApproxZipfDistribution(  //
     : min_{min},
       max_{max},
       alpha_{alpha},
-      n_{max_ - min_ + static_cast<IntType>(1)},
+      n_{max < min ? static_cast<IntType>(1) : static_cast<IntType>(max_ - min_ + static_cast<IntType>(1))},
       pow_{1.0 - alpha_},
       denom_{GetHarmonicNum(n_)}
 {
